@@ -72,13 +72,17 @@ def run_case(case):
     # delay estimator: constant data -> deterministic distribution in the units of the data; rescaling back to data units
     from rex.gmm_estimator import GMMEstimator
     if case["const_data"]:
-        data = np.ones(50) * case["loc"][0]
+        cv = case.get("const_value", case["loc"][0])
+        data = np.ones(50) * cv
         est = GMMEstimator(data)
-        dist = est.get_dist()
-        checks += 1
-        m = float(dist.mean())
-        if abs(m - case["loc"][0]) > 1e-5 or float(dist.sample()[1]) != float(dist.sample()[1]):
-            bad.append(f"constant data {case['loc'][0]} -> estimator distribution mean {m}")
+        checks += 2
+        if not est.is_deterministic:
+            bad.append(f"constant data {cv} not recognised as deterministic")
+        else:
+            dist = est.get_dist()
+            m = float(dist.mean())
+            if abs(m - cv) > 1e-5 or float(dist.sample()[1]) != float(dist.sample()[1]) or abs(float(np.asarray(dist.quantile(0.99)).reshape(-1)[0]) - cv) > 1e-5:
+                bad.append(f"constant data {cv} -> estimator distribution mean {m}")
     else:
         data = np.abs(np.random.RandomState(case["key"]).normal(case["loc"][0], case["scale"][0], size=200))
         est = GMMEstimator(data)
@@ -118,6 +122,8 @@ def main():
     cases[0]["kind"], cases[0]["const_data"] = "deterministic", True
     if len(cases) > 1:
         cases[1]["kind"] = "normal"
+    if len(cases) > 2:
+        cases[2]["const_data"], cases[2]["const_value"] = True, 0.0      # boundary: all-zero delays
     import multiprocessing as mp
     with mp.get_context("spawn").Pool(min(10, a.n)) as pool:
         outs = pool.map(_safe, cases)
